@@ -260,6 +260,9 @@ def assign_to(self, tgt: ast.AST, v: Term, st: State, node=None):
             self.store_slice(base, lo, hi, stp, v, st, node or tgt)
             return
         idx = self.ev(tgt.slice, st)
+        if idx.op == "sliceobj":
+            self.store_slice(base, idx.args[0], idx.args[1], idx.args[2], v, st, node or tgt)
+            return
         self.store_subscript(base, idx, v, st, node or tgt)
         return
     if t is ast.Starred:
